@@ -15,12 +15,17 @@
 //   enc  <id> <value>                -> ok <size> <hex|->
 //   encu <id> <value>                -> ok <size> <hex of the SORTED bytes>   (types with unordered containers)
 //   enc2 <id> <value1> <value2>      -> ok <size> <hex|->       (same object serialized, mutated, serialized again)
+//   pb   <id> <value>                -> ok <hex of PROTOBUF's encoding>   (A1, A5, A6: structs of the documented-compatible
+//                                       kinds; protobuf's writer / generic parser as independent oracle both ways)
 //   rt   <id> <value> <pres>         -> ok <value parsed back>  (serialize, parse through <pres> into a fresh object)
 //   dec  <id> <hex|-> <pres>         -> ok <value> | fail
 //   deci <id> <value> <hex|-> <pres> -> ok <value> | fail       (parse into an object holding <value>)
 // pres: f (parse_from_array) | g (parse_from_string) | fL<n> (array-backed CodedInputStream + PushLimit(n))
 //     | s<c> (CodedInputStream over ArrayInputStream with block size c) | s<c>L<n> (… + PushLimit(n))
 #include <babylon/serialization.h>
+
+#include <google/protobuf/unknown_field_set.h>
+#include <google/protobuf/wire_format_lite.h>
 
 #include <poll.h>
 #include <signal.h>
@@ -558,14 +563,176 @@ template <class T> struct Ops {
   }
 };
 
+// ------------------------------------------------------------------------------------------------
+// independent oracle for the protobuf-compatibility clause (documented kinds only): protobuf's own writer
+// (WireFormatLite / CodedOutputStream) produces the bytes babylon must read, and protobuf's own generic wire parser
+// (UnknownFieldSet) reads the bytes babylon produced
+using ::google::protobuf::UnknownField;
+using ::google::protobuf::UnknownFieldSet;
+using WFL = ::google::protobuf::internal::WireFormatLite;
+
+template <class T, class E = void> struct Pb;   // one compatible kind
+template <class T> static std::string pb_message(const T& v);
+template <class T> static bool pb_check_message(const T& v, const std::string& bytes, std::string& why);
+
+template <> struct Pb<bool> {
+  static constexpr bool repeated = false;
+  static void write(int num, const bool& v, CodedOutputStream& os) { WFL::WriteBool(num, v, &os); }
+  static void write_packed(const bool& v, CodedOutputStream& os) { WFL::WriteBoolNoTag(v, &os); }
+  static bool read_packed(CodedInputStream& is, bool& v) { uint64_t x; if (!is.ReadVarint64(&x)) return false; v = x != 0; return true; }
+  static bool check(const bool& v, const UnknownField& f) { return f.type() == UnknownField::TYPE_VARINT && (f.varint() != 0) == v; }
+};
+#define PB_VARINT(T, W, CAST)                                                                              \
+  template <> struct Pb<T> {                                                                               \
+    static constexpr bool repeated = false;                                                                \
+    static void write(int num, const T& v, CodedOutputStream& os) { WFL::Write##W(num, v, &os); }           \
+    static void write_packed(const T& v, CodedOutputStream& os) { WFL::Write##W##NoTag(v, &os); }           \
+    static bool read_packed(CodedInputStream& is, T& v) { uint64_t x; if (!is.ReadVarint64(&x)) return false; v = CAST(x); return true; } \
+    static bool check(const T& v, const UnknownField& f) { return f.type() == UnknownField::TYPE_VARINT && CAST(f.varint()) == v; } \
+  };
+PB_VARINT(int32_t, Int32, static_cast<int32_t>)
+PB_VARINT(int64_t, Int64, static_cast<int64_t>)
+PB_VARINT(uint32_t, UInt32, static_cast<uint32_t>)
+PB_VARINT(uint64_t, UInt64, static_cast<uint64_t>)
+template <> struct Pb<E32> {
+  static constexpr bool repeated = false;
+  static void write(int num, const E32& v, CodedOutputStream& os) { WFL::WriteEnum(num, static_cast<int>(v), &os); }
+  static void write_packed(const E32& v, CodedOutputStream& os) { WFL::WriteEnumNoTag(static_cast<int>(v), &os); }
+  static bool read_packed(CodedInputStream& is, E32& v) { uint64_t x; if (!is.ReadVarint64(&x)) return false; v = static_cast<E32>(static_cast<int32_t>(x)); return true; }
+  static bool check(const E32& v, const UnknownField& f) { return f.type() == UnknownField::TYPE_VARINT && static_cast<int32_t>(f.varint()) == static_cast<int32_t>(v); }
+};
+template <> struct Pb<float> {
+  static constexpr bool repeated = false;
+  static void write(int num, const float& v, CodedOutputStream& os) { WFL::WriteFloat(num, v, &os); }
+  static void write_packed(const float& v, CodedOutputStream& os) { WFL::WriteFloatNoTag(v, &os); }
+  static bool read_packed(CodedInputStream& is, float& v) { uint32_t x; if (!is.ReadLittleEndian32(&x)) return false; memcpy(&v, &x, 4); return true; }
+  static bool check(const float& v, const UnknownField& f) { uint32_t b; memcpy(&b, &v, 4); return f.type() == UnknownField::TYPE_FIXED32 && f.fixed32() == b; }
+};
+template <> struct Pb<double> {
+  static constexpr bool repeated = false;
+  static void write(int num, const double& v, CodedOutputStream& os) { WFL::WriteDouble(num, v, &os); }
+  static void write_packed(const double& v, CodedOutputStream& os) { WFL::WriteDoubleNoTag(v, &os); }
+  static bool read_packed(CodedInputStream& is, double& v) { uint64_t x; if (!is.ReadLittleEndian64(&x)) return false; memcpy(&v, &x, 8); return true; }
+  static bool check(const double& v, const UnknownField& f) { uint64_t b; memcpy(&b, &v, 8); return f.type() == UnknownField::TYPE_FIXED64 && f.fixed64() == b; }
+};
+template <> struct Pb<std::string> {
+  static constexpr bool repeated = false;
+  static void write(int num, const std::string& v, CodedOutputStream& os) { WFL::WriteBytes(num, v, &os); }
+  static bool check(const std::string& v, const UnknownField& f) { return f.type() == UnknownField::TYPE_LENGTH_DELIMITED && f.length_delimited() == v; }
+};
+template <class T> struct Pb<T, std::enable_if_t<IsAgg<T>>> {   // optional message
+  static constexpr bool repeated = false;
+  static void write(int num, const T& v, CodedOutputStream& os) { WFL::WriteBytes(num, pb_message(v), &os); }
+  static bool check(const T& v, const UnknownField& f) {
+    std::string why;
+    return f.type() == UnknownField::TYPE_LENGTH_DELIMITED && pb_check_message(v, f.length_delimited(), why);
+  }
+};
+template <class T> struct PackedOf {   // repeated … [packed = true]
+  static constexpr bool repeated = true;
+  template <class V> static std::string payload(const V& v) {
+    std::string s;
+    {
+      ::google::protobuf::io::StringOutputStream so(&s);
+      CodedOutputStream os(&so);
+      for (const T& x : v) Pb<T>::write_packed(x, os);
+    }
+    return s;
+  }
+  template <class V> static void write(int num, const V& v, CodedOutputStream& os) {
+    if (v.empty()) return;   // protobuf does not write an empty packed field
+    WFL::WriteBytes(num, payload(v), &os);
+  }
+  template <class V> static bool check(const V& v, const UnknownField& f) {
+    if (f.type() != UnknownField::TYPE_LENGTH_DELIMITED) return false;
+    const std::string& p = f.length_delimited();
+    CodedInputStream is(reinterpret_cast<const uint8_t*>(p.data()), int(p.size()));
+    size_t i = 0;
+    while (is.BytesUntilLimit() > 0) {
+      T x {};
+      if (!Pb<T>::read_packed(is, x) || i >= v.size()) return false;
+      T want = v[i++];
+      if (memcmp(&x, &want, sizeof(T)) != 0 && !(x == want)) return false;
+    }
+    return i == v.size();
+  }
+};
+template <class T> struct Pb<std::vector<T>> : PackedOf<T> {};
+template <> struct Pb<std::vector<bool>> {
+  static constexpr bool repeated = true;
+  static void write(int num, const std::vector<bool>& v, CodedOutputStream& os) {
+    if (v.empty()) return;
+    std::string s;
+    for (bool b : v) s.push_back(b ? 1 : 0);
+    WFL::WriteBytes(num, s, &os);
+  }
+  static bool check(const std::vector<bool>& v, const UnknownField& f) {
+    if (f.type() != UnknownField::TYPE_LENGTH_DELIMITED || f.length_delimited().size() != v.size()) return false;
+    for (size_t i = 0; i < v.size(); ++i) if ((f.length_delimited()[i] != 0) != v[i]) return false;
+    return true;
+  }
+};
+// protobuf's encoding of a struct of compatible kinds, every optional field set
+template <class T> static std::string pb_message(const T& v) {
+  std::string s;
+  {
+    ::google::protobuf::io::StringOutputStream so(&s);
+    CodedOutputStream os(&so);
+    const_cast<T&>(v).members([&](int num, auto& m) {
+      using M = std::remove_reference_t<decltype(m)>;
+      Pb<M>::write(num, m, os);
+    });
+  }
+  return s;
+}
+// babylon's bytes, read by protobuf's generic wire parser, hold exactly the members (an omitted member must be empty)
+template <class T> static bool pb_check_message(const T& v, const std::string& bytes, std::string& why) {
+  UnknownFieldSet ufs;
+  if (!ufs.ParseFromString(bytes)) { why = "protobuf cannot parse"; return false; }
+  std::vector<bool> used(size_t(ufs.field_count()), false);
+  bool ok = true;
+  const_cast<T&>(v).members([&](int num, auto& m) {
+    using M = std::remove_reference_t<decltype(m)>;
+    int found = -1;
+    for (int i = 0; i < ufs.field_count(); ++i)
+      if (ufs.field(i).number() == num) { if (found >= 0) { ok = false; why = "field twice " + std::to_string(num); } found = i; }
+    if (found < 0) {
+      if (SerializeTraits<M>::calculate_serialized_size(m) != 0) { ok = false; why = "missing field " + std::to_string(num); }
+      return;
+    }
+    used[size_t(found)] = true;
+    if (!Pb<M>::check(m, ufs.field(found))) { ok = false; why = "wrong value in field " + std::to_string(num); }
+  });
+  for (size_t i = 0; i < used.size(); ++i) if (!used[i]) { ok = false; why = "stray field " + std::to_string(ufs.field(int(i)).number()); }
+  return ok;
+}
+template <class T, class E = void> struct PbOps {
+  static std::string pb(const Node&) { return "unsupported"; }
+};
+template <class T> struct PbOps<T, std::enable_if_t<std::is_same_v<T, A1> || std::is_same_v<T, A5> || std::is_same_v<T, A6>>> {
+  static std::string pb(const Node& v) {
+    auto h = std::make_unique<Holder<T>>();
+    C<T>::fill(h->v, v);
+    std::string oracle, mine, why;
+    Serialization::serialize_to_string(h->v, mine);
+    if (!pb_check_message(h->v, mine, why)) oracle += " !ORACLE(protobuf-reads-babylon " + why + ")";
+    std::string theirs = pb_message(h->v);
+    auto back = std::make_unique<Holder<T>>();
+    if (!Serialization::parse_from_string(theirs, back->v)) oracle += " !ORACLE(babylon-reads-protobuf parse-failed)";
+    else if (C<T>::show(back->v, false) != C<T>::show(h->v, false)) oracle += " !ORACLE(babylon-reads-protobuf got=" + C<T>::show(back->v, false) + ")";
+    return "ok " + hex_or_dash(theirs) + oracle;
+  }
+};
+
 struct Entry {
   std::string (*desc)();
   std::string (*enc)(const Node&);
   std::string (*enc2)(const Node&, const Node&);
   std::string (*rt)(const Node&, const Pres&);
   std::string (*dec)(const Node*, const std::string&, const Pres&);
+  std::string (*pb)(const Node&);
 };
-template <class T> static Entry entry() { return Entry {&C<T>::desc, &Ops<T>::enc, &Ops<T>::enc2, &Ops<T>::rt, &Ops<T>::dec}; }
+template <class T> static Entry entry() { return Entry {&C<T>::desc, &Ops<T>::enc, &Ops<T>::enc2, &Ops<T>::rt, &Ops<T>::dec, &PbOps<T>::pb}; }
 
 using ArrI3 = int32_t[3];
 using ArrD2 = double[2];
@@ -643,6 +810,7 @@ static std::string run_line(const std::vector<std::string>& w) {
       return d == w[2] ? "ok" : "mismatch " + d;
     }
     if (w[0] == "enc" && w.size() == 3) return e->enc(parse_value(w[2]));
+    if (w[0] == "pb" && w.size() == 3) return e->pb(parse_value(w[2]));
     if (w[0] == "encu" && w.size() == 3) return sort_hex(e->enc(parse_value(w[2])));
     if (w[0] == "enc2" && w.size() == 4) return e->enc2(parse_value(w[2]), parse_value(w[3]));
     Pres p;
